@@ -30,6 +30,8 @@ pub struct GenOpts {
     pub texts: Option<&'static [&'static str]>,
     /// multiplier for the probability of each relation kind
     pub relation_weight: u32,
+    /// only alphanumeric shorts and ASCII longs (scripts quote names in shell-specific ways)
+    pub safe_names: bool,
 }
 
 impl Default for GenOpts {
@@ -51,6 +53,7 @@ impl Default for GenOpts {
             help_version_actions: true,
             texts: None,
             relation_weight: 1,
+            safe_names: false,
         }
     }
 }
@@ -225,6 +228,11 @@ fn gen_level(t: &mut Tape<'_>, opts: &GenOpts, depth: usize, name: &str, inh: &I
         shorts: SHORTS.to_vec(),
         subs: SUBS.to_vec(),
     };
+    if opts.safe_names {
+        pools.longs.retain(|l| l.is_ascii());
+        pools.shorts.retain(|c| c.is_ascii_alphanumeric());
+        pools.subs.retain(|l| l.is_ascii());
+    }
     // names taken by globals propagated from above
     for g in inherited_globals {
         if let Some(l) = &g.long {
